@@ -18,16 +18,17 @@ import (
 // C04 — generated Postgres JSON validators accept what Go emits, reject foreign shapes.
 
 type c04Case struct {
-	Spec *synth.Spec `json:"spec"`
-	Seed int64       `json:"seed"`
-	Sel  []int       `json:"sel"` // selectors choosing the corruption points (drawn by rapid)
+	Spec   *synth.Spec `json:"spec"`
+	Seed   int64       `json:"seed"`
+	Sel    []int       `json:"sel"` // selectors choosing the corruption points (drawn by rapid)
+	Checks int         `json:"checks,omitempty"`
 }
 
 func c04Gen(t *rapid.T, r *h.Rec) c04Case {
 	av, onEx, onCl := avoidOpts(r)
 	c := c04Case{
 		Spec: synth.GenSQL(t, &synth.SQLOpts{Avoid: av, OnExclude: onEx, OnClass: onCl, MaxTables: 3, JSONHeavy: true}),
-		Seed: int64(rapid.IntRange(1, 1<<30).Draw(t, "childSeed")),
+		Seed: int64(rapid.IntRange(1, 1<<30).Draw(t, "childSeed")), Checks: childChecks(25, 80),
 	}
 	c.Sel = rapid.SliceOfN(rapid.IntRange(0, 1<<20), 48, 48).Draw(t, "selectors")
 	return c
@@ -277,7 +278,7 @@ func c04Check(c c04Case, r *h.Rec) error {
 		typeNames = append(typeNames, n)
 	}
 	sort.Strings(typeNames)
-	_, res, _, err := childDocsTypes(execCase{Spec: c.Spec, Seed: c.Seed}, r, "docs", nil, "", typeNames)
+	_, res, _, err := childDocsTypes(execCase{Spec: c.Spec, Seed: c.Seed, Checks: c.Checks}, r, "docs", nil, "", typeNames)
 	if err != nil || res == nil {
 		return err
 	}
